@@ -77,7 +77,7 @@ structure State where
   count : Nat                    -- attachment_counter
   guards : List (Nat × Guard)    -- guards the caller holds, by label
   now : Nat                      -- logical clock
-  deriving Repr
+  deriving Repr, DecidableEq
 
 def State.init (cap : Nat) (capFirst : Bool) (nl ns evMax : Nat) : State :=
   { cap, capFirst, nl, ns, evMax, pending := [], reactor := [], dq := [], idCount := 0, prev := 0,
